@@ -11,6 +11,7 @@ from .debugging import ModuleLogger, DebugContents, bacpypes_debugging
 
 from .udp import UDPDirector
 from .task import OneShotFunction, OneShotTask, RecurringTask
+from .errors import DecodingError
 from .comm import Client, Server, bind, \
     ServiceAccessPoint, ApplicationServiceElement
 
@@ -304,8 +305,13 @@ class AnnexJCodec(Client, Server):
         bvlpdu = BVLPDU()
         bvlpdu.decode(pdu)
 
-        # get the class related to the function
-        rpdu = bvl_pdu_types[bvlpdu.bvlciFunction]()
+        # get the class related to the function, refuse unknown functions
+        # the same way as any other malformed frame
+        bvl_class = bvl_pdu_types.get(bvlpdu.bvlciFunction)
+        if bvl_class is None:
+            raise DecodingError("unrecognized BVLCI function")
+
+        rpdu = bvl_class()
         rpdu.decode(bvlpdu)
 
         # send it upstream
